@@ -47,18 +47,19 @@ class Gen:
              cmp := cop (cmpop cop)* ; cop := N | '(' L ')'
     """
 
-    def __init__(self, rng, maxdepth=6, maxops=40):
+    def __init__(self, rng, maxdepth=6, maxops=40, size=1.0):
         self.r = rng
+        self.size = size          # scales the probability of longer chains / deeper nesting
         self.maxdepth = maxdepth
         self.maxops = maxops
         self.ops = 0
 
-    def _n(self, d, p2=0.45, p3=0.18):
+    def _n(self, d, p2=0.36, p3=0.10):
         """number of operands of a chain"""
         if self.ops >= self.maxops:
             return 1
         x = self.r.random()
-        scale = 1.0 if d > 0 else 0.6
+        scale = self.size * (1.0 if d > 0 else 0.6)
         n = 3 if x < p3 * scale else 2 if x < p2 * scale else 1
         self.ops += n - 1
         return n
@@ -75,12 +76,13 @@ class Gen:
 
     def prim(self, d):
         x = self.r.random()
-        if d <= 0 or x < 0.5 or self.ops >= self.maxops:
+        if d <= 0 or x < 1 - 0.38 * min(1.0, self.size + 0.3) or self.ops >= self.maxops:
             return self.num()
         self.ops += 1
-        if x < 0.72:
+        x = self.r.random()
+        if x < 0.42:
             return ['par', self.add(d - 1)]
-        if x < 0.9:
+        if x < 0.82:
             return ['f', self.r.choice(F1), [self.add(d - 1)]]
         return ['f', self.r.choice(F2), [self.add(d - 1), self.add(d - 1)]]
 
@@ -93,8 +95,19 @@ class Gen:
         self.ops += k
         return ['una', ''.join(self.r.choice('+-') for _ in range(k)), p]
 
+    def small(self, d):
+        """exponent operand: mostly a small literal so that powers stay finite"""
+        if self.r.random() < 0.25:
+            return self.una(d)
+        n = ['num', self.r.choice(['2', '3', '0.5', '1', '0', '2', '1.5', '4'])]
+        x = self.r.random()
+        return n if x < 0.7 else ['una', self.r.choice(['-', '+', '--', '-+', '+-']), n]
+
     def pow(self, d):
-        return self.chain('pow', self.una, d, p2=0.25, p3=0.06)
+        n = self._n(d, p2=0.25, p3=0.06)
+        if n == 1:
+            return self.una(d)
+        return ['bin', 'pow', [self.una(d)] + [self.small(d) for _ in range(n - 1)], ['**'] * (n - 1)]
 
     def mul(self, d):
         return self.chain('mul', self.pow, d)
@@ -485,7 +498,7 @@ def scan_raises(text, d2, d3):
 
 # --------------------------------------------------------------------------- recogniser
 
-_LEX = re.compile(r'\s*(?:(?P<num>\d+\.?\d*|\.\d+)|(?P<fn>log10\(|logb\(|log\(|exp\(|sqrt\(|pow\(|sin\(|cos\(|tan\()|'
+_LEX = re.compile(r' *(?:(?P<num>\d+\.?\d*|\.\d+)|(?P<fn>log10\(|logb\(|log\(|exp\(|sqrt\(|pow\(|sin\(|cos\(|tan\()|'
                   r'(?P<op>\*\*|\*|/|\+|-|==|!=|<=|>=|<|>|&&|\|\||!|\(|\)|,))')
 
 
@@ -721,3 +734,81 @@ def replace(e, path, fn):
     else:
         e[path[0]] = replace(e[path[0]], path[1:], fn)
     return e
+
+
+# --------------------------------------------------------------------------- step guard (monitor shared by C01 / C02)
+
+class StepBudgetExceeded(BaseException):
+    """raised *inside* the monitored code when a call used more logical steps than the budget"""
+
+
+class StepGuard:
+    """sys.monitoring (tool id 3) counter of PY_START|JUMP events restricted to the code objects of the
+    given modules; raises StepBudgetExceeded out of the monitored code once the budget is used up.
+    Also records, once per line, which lines of the monitored functions were executed (anchor coverage)."""
+    TOOL = 3
+    _inst = None
+
+    @classmethod
+    def get(cls, modules):
+        if cls._inst is None:
+            cls._inst = cls()
+        cls._inst.watch(modules)
+        return cls._inst
+
+    def __init__(self):
+        import sys
+        self.mon = sys.monitoring
+        self.n = 0
+        self.budget = 2_000_000
+        self.max_ok = 0
+        self.calls = 0
+        self.lines = {}
+        self.codes = {}
+        self.mon.use_tool_id(self.TOOL, 'vt-steps')
+        E = self.mon.events
+        self.mon.register_callback(self.TOOL, E.PY_START, self._tick)
+        self.mon.register_callback(self.TOOL, E.JUMP, self._tick)
+        self.mon.register_callback(self.TOOL, E.LINE, self._line)
+
+    def _tick(self, *a):
+        self.n += 1
+        if self.n > self.budget:
+            self.n = -10 ** 15            # let the unwinding run without raising again
+            raise StepBudgetExceeded(self.budget)
+
+    def _line(self, code, line):
+        self.lines['%s:%s:%d' % (code.co_filename.rsplit('/', 1)[-1], code.co_name, line)] = 1
+        return self.mon.DISABLE
+
+    def watch(self, modules):
+        import types
+        E = self.mon.events
+        for m in modules:
+            for obj in list(vars(m).values()):
+                fns = []
+                if isinstance(obj, types.FunctionType) and obj.__module__ == m.__name__:
+                    fns.append(obj)
+                elif isinstance(obj, type) and obj.__module__ == m.__name__:
+                    fns += [f for f in vars(obj).values() if isinstance(f, types.FunctionType)]
+                for f in fns:
+                    if f.__code__ not in self.codes:
+                        self.codes[f.__code__] = 1
+                        self.mon.set_local_events(self.TOOL, f.__code__, E.PY_START | E.JUMP | E.LINE)
+
+    def run(self, fn, *args):
+        """-> ('v', result) | ('e', exception) | ('budget', steps)"""
+        self.n = 0
+        self.calls += 1
+        self.budget = max(2_000_000, 200 * self.max_ok)
+        try:
+            r = fn(*args)
+        except StepBudgetExceeded as e:
+            return ('budget', e.args[0])
+        except Exception as e:
+            self.steps = self.n
+            return ('e', e)
+        self.steps = self.n
+        if self.n > self.max_ok:
+            self.max_ok = self.n
+        return ('v', r)
